@@ -15,7 +15,11 @@ EXTRA = {"C01-m1": ["C06"], "C01-m2": ["C02"], "C02-m1": ["C07"], "C02-m2": ["C0
          "C05-m1": ["C09"], "C05-m2": ["C03"], "C06-m1": ["C01"], "C06-m2": ["C01", "C02"], "C09-m1": ["C02", "C10"], "C09-m2": ["C02"],
          "C16-m2": ["C15"], "C17-m2": ["C07"], "C18-m1": ["C04"], "C18-m2": ["C02"],
          "C04-m3": ["C12", "C11"], "C03-m4": ["C02"], "C02-m3": ["C17"], "C01-m3": ["C06", "C02"], "C13-m4": ["C16", "C15"], "C16-m3": ["C13"],
-         "C03-m6": ["C08"], "C02-m5": ["C09"], "C02-m6": ["C18"], "C05-m6": ["C17"], "C04-m6": ["C08"], "C10-m5": ["C01"], "C10-m6": ["C02"], "C08-m5": ["C14", "C03"]}
+         "C03-m6": ["C08"], "C02-m5": ["C09"], "C02-m6": ["C18"], "C05-m6": ["C17"], "C04-m6": ["C08"], "C10-m5": ["C01"], "C10-m6": ["C02"], "C08-m5": ["C14", "C03"],
+         "C01-m7": ["C07"], "C01-m8": ["C16", "C15"], "C02-m8": ["C09"], "C03-m7": ["C02"], "C04-m7": ["C07"], "C04-m8": ["C11"],
+         "C05-m8": ["C09", "C10"], "C06-m7": ["C02"], "C06-m8": ["C01"], "C08-m7": ["C03", "C02"], "C08-m8": ["C03"], "C11-m7": ["C02"],
+         "C11-m8": ["C02", "C04"], "C12-m8": ["C11"], "C13-m7": ["C14"], "C14-m8": ["C13"], "C15-m8": ["C16"], "C17-m7": ["C07"],
+         "C18-m8": ["C04"]}
 
 
 def main():
